@@ -343,3 +343,15 @@ def words_of_job(alphabet, prefix, k):
 
 def count_words(n, k):
     return sum(n ** i for i in range(k + 1))
+
+
+def exc_sig(e):
+    """exception signature: type + innermost frame inside the repository under test"""
+    tb = e.__traceback__
+    where = '?'
+    while tb is not None:
+        fn = tb.tb_frame.f_code.co_filename
+        if fn.startswith(REPO):
+            where = '%s:%s' % (os.path.basename(fn), tb.tb_frame.f_code.co_name)
+        tb = tb.tb_next
+    return 'exception:%s@%s' % (type(e).__name__, where)
